@@ -427,6 +427,7 @@ func (c *channelCacheImpl) addChannelCache(ctx context.Context, channel channels
 
 	singleChannelCache :=
 		newChannelCacheWithOptions(ctx, queryHandler, channel, validFrom, c.options, c.cacheStats)
+	verifPoint("channel-cache-between-validfrom-and-insert")
 	cacheValue, created, cacheSize := c.channelCaches.GetOrInsert(channel, singleChannelCache)
 	c.validFromLock.Unlock()
 
